@@ -3,9 +3,14 @@
 
    Cells of the heap:
      CGraph g     a networkx DiGraph object together with everything it owns (node-attribute dicts, adjacency dicts)
-     CDict b      a blackbox registry dict (BlackBox objects and strings are immutable values)
+     CDict b      a blackbox registry dict: instance name -> *reference* to a BlackBox cell
+     CBb d        a BlackBox object together with its two pin sets (BlackBox.inputs()/outputs() hand out the sets
+                  themselves, so they are mutable state shared by every registry that holds the object); also a
+                  free-standing pin set
      CCirc n g b  a Circuit object: its name and *references* to a graph cell and a dict cell
      CBox l       a tuple / list / set / dict holding references to other objects
+   BlackBox cells are *shared by design* (dict.copy() is shallow): the theorems say that no listed function ever writes
+   one that existed before the call, and that everything else reachable from a result is new.
    A public function is described by an *effect summary*: a program over named locals in a small DSL that records where
    the Python copies, where it only aliases, and which objects it mutates.  The summaries are regenerated from the source
    (Gen/Gen_effects.v); the hand-written part is the semantics of the DSL and the checker `safe_summary`. *)
@@ -16,7 +21,8 @@ Open Scope string_scope.
 Definition loc := positive.
 Inductive cell :=
 | CGraph (g : circuit)
-| CDict (b : gmap string bbdef)
+| CDict (b : gmap string loc)
+| CBb (d : bbdef)
 | CCirc (name : string) (g b : loc)
 | CBox (items : list loc).
 Notation heap := (gmap loc cell).
@@ -24,18 +30,24 @@ Notation env := (gmap string loc).
 Definition state : Type := heap * env.
 
 Definition refs (c : cell) : list loc :=
-  match c with CCirc _ g b => [g; b] | CBox l => l | _ => [] end.
+  match c with CCirc _ g b => [g; b] | CBox l => l | CDict b => (map_to_list b).*2 | _ => [] end.
 Definition pts (h : heap) (l l' : loc) : Prop := ∃ c, h !! l = Some c ∧ l' ∈ refs c.
 Definition reach (h : heap) (r l : loc) : Prop := rtc (pts h) r l.
-Definition hclosed (h : heap) : Prop := ∀ l c l', h !! l = Some c → l' ∈ refs c → l' ∈ dom h.
+Definition vcell (h : heap) (l : loc) : Prop := ∃ d, h !! l = Some (CBb d).
+Definition is_dict (c : cell) : Prop := match c with CDict _ => True | _ => False end.
+(* no dangling references, and a registry refers to BlackBox cells only *)
+Definition hclosed (h : heap) : Prop := ∀ l c l', h !! l = Some c → l' ∈ refs c → l' ∈ dom h ∧ (is_dict c → vcell h l').
 Definition env_ok (h : heap) (e : env) : Prop := ∀ x l, e !! x = Some l → l ∈ dom h.
 
 (* what a Circuit object denotes: the value that lib.dump_circuit observes *)
+Definition resolve (h : heap) (l : loc) : option bbdef := match h !! l with Some (CBb d) => Some d | _ => None end.
 Definition denote (h : heap) (l : loc) : option Circuit :=
   match h !! l with
   | Some (CCirc n g b) =>
       match h !! g, h !! b with
-      | Some (CGraph gg), Some (CDict bb) => Some {| c_name := n; c_g := gg; c_bbs := bb |}
+      | Some (CGraph gg), Some (CDict bb) =>
+          if decide (map_Forall (λ _ lb, is_Some (resolve h lb)) bb)
+          then Some {| c_name := n; c_g := gg; c_bbs := omap (resolve h) bb |} else None
       | _, _ => None
       end
   | _ => None
@@ -52,23 +64,28 @@ Inductive prim :=
 | PGetGraph (d c : string)                          (* d = c.graph        -- an alias *)
 | PGetBbs (d c : string)                            (* d = c.blackboxes   -- an alias *)
 | PMkCircuit (d : string) (g b : option string)     (* Circuit(graph=g, blackboxes=b) *)
-| PFrom (d : string) (srcs : list string)           (* plain alias, container building, iteration, element access, view: no copy *)
+| PAlias (d s : string)                             (* d = s; bb.inputs() / bb.outputs(): the object itself *)
+| PFrom (d : string) (srcs : list string)           (* container building, iteration, element access, view: no copy *)
+| PAllocVal (d : string)                            (* BlackBox(...), bb.io(), set(x), a | b: a new BlackBox / pin set *)
+| PForeign (d : string)                             (* a BlackBox that comes from outside: value parameter, module global *)
 | PRead (x : string)                                (* any use that only reads *)
-| PWrite (x : string)                               (* any mutator applied to the object held in x *)
+| PWrite (x : string)                               (* any mutator of a Circuit / DiGraph / registry dict applied to the object held in x *)
+| PWriteVal (x : string)                            (* in-place update of a BlackBox or of one of its pin sets: |=, &=, -=, .add, .update ... *)
 | PCall (d : option string) (f : string) (args : list string).
 Inductive prog := Skip | Do (i : prim) | Seq (p q : prog) | Choice (p q : prog) | Loop (p : prog).
 Record summary := { s_name : string; s_params : list string; s_body : prog; s_ret : option string }.
 Fixpoint seqs (l : list prog) : prog := match l with [] => Skip | [p] => p | p :: r => Seq p (seqs r) end.
 
 (* ------------------------------------------------------------------ semantics *)
-(* A mutator called on the object at l (add, connect, remove, set_type, relabel, graph.add_node, g.nodes[n][k] = v,
-   del d[k], c.name = s ...) may change any cell of a footprint W reachable from l, may allocate, and may store
-   references only to cells that were reachable from l or that it allocated itself. *)
+(* A mutator called on the object at l (add, connect, remove, set_type, relabel, add_blackbox, graph.add_node,
+   g.nodes[n][k] = v, d[k] = bb, del d[k], c.name = s ...) may change any cell of a footprint W reachable from l
+   that is not a BlackBox cell, may allocate, and may store references only to cells that were reachable from l,
+   that it allocated itself, or that are BlackBox cells (add_blackbox(bb, ..) stores the caller's object). *)
 Definition wstep (h : heap) (l : loc) (h' : heap) : Prop :=
   ∃ W : gset loc,
-    (∀ l', l' ∈ W → reach h l l') ∧ dom h ⊆ dom h' ∧ hclosed h' ∧
+    (∀ l', l' ∈ W → reach h l l' ∧ ¬ vcell h l') ∧ dom h ⊆ dom h' ∧ hclosed h' ∧
     (∀ l', l' ∈ dom h → l' ∉ W → h' !! l' = h !! l') ∧
-    (∀ l1 c l2, h' !! l1 = Some c → l2 ∈ refs c → l1 ∈ W ∨ l1 ∉ dom h → reach h l l2 ∨ l2 ∉ dom h).
+    (∀ l1 c l2, h' !! l1 = Some c → l2 ∈ refs c → l1 ∈ W ∨ l1 ∉ dom h → reach h l l2 ∨ l2 ∉ dom h ∨ vcell h l2).
 
 (* Circuit.__init__: a falsy argument (None, an empty graph, an empty dict) is replaced by a new object,
    anything else is stored BY REFERENCE *)
@@ -85,7 +102,7 @@ Inductive prim_step : prim → state → state → Prop :=
 | st_alloc_graph d h e l : l ∉ dom h → prim_step (PAllocGraph d) (h, e) (<[l := CGraph ∅]> h, <[d := l]> e)
 | st_alloc_dict d h e l : l ∉ dom h → prim_step (PAllocDict d) (h, e) (<[l := CDict ∅]> h, <[d := l]> e)
 | st_fresh_circuit d h e lc lg lb nm g b :
-    lg ∉ dom h → lb ∉ dom h → lc ∉ dom h → lg ≠ lb → lc ≠ lg → lc ≠ lb →
+    lg ∉ dom h → lb ∉ dom h → lc ∉ dom h → lg ≠ lb → lc ≠ lg → lc ≠ lb → (∀ k l, b !! k = Some l → vcell h l) →
     prim_step (PFreshCircuit d) (h, e) (<[lc := CCirc nm lg lb]> (<[lb := CDict b]> (<[lg := CGraph g]> h)), <[d := lc]> e)
 | st_copy_graph d s h e ls g l :
     e !! s = Some ls → h !! ls = Some (CGraph g) → l ∉ dom h →
@@ -103,6 +120,10 @@ Inductive prim_step : prim → state → state → Prop :=
 | st_mk_circuit d g b h e lg h1 lb h2 lc nm :
     pick_graph h e g lg h1 → pick_dict h1 e b lb h2 → lc ∉ dom h2 →
     prim_step (PMkCircuit d g b) (h, e) (<[lc := CCirc nm lg lb]> h2, <[d := lc]> e)
+| st_alias d s h e ls : e !! s = Some ls → prim_step (PAlias d s) (h, e) (h, <[d := ls]> e)
+| st_alloc_val d h e l v : l ∉ dom h → prim_step (PAllocVal d) (h, e) (<[l := CBb v]> h, <[d := l]> e)
+| st_foreign d h e l : vcell h l → prim_step (PForeign d) (h, e) (h, <[d := l]> e)
+| st_write_val x h e l v v' : e !! x = Some l → h !! l = Some (CBb v) → prim_step (PWriteVal x) (h, e) (<[l := CBb v']> h, e)
 | st_from d srcs h e h' l :
     h ⊆ h' → hclosed h' → l ∈ dom h' →
     (∀ l', reach h' l l' → l' ∉ dom h ∨ ∃ s ls, s ∈ srcs ∧ e !! s = Some ls ∧ reach h ls l') →
@@ -140,74 +161,91 @@ Inductive exec (tbl : list summary) : prog → state → bool → state → Prop
     exec tbl (Do (PCall d f args)) (h, e) true (h', e).
 
 (* ------------------------------------------------------------------ the checker *)
-(* `own` = locals that can only ever hold objects none of whose reachable cells existed before the call *)
+(* `own`  = locals that can only ever hold objects all of whose reachable cells are new or BlackBox cells
+   `ownv` = locals that can only ever hold an object that is itself new (a BlackBox / pin set made by the call) *)
 Definition ino (own : gset string) (x : string) : bool := bool_decide (x ∈ own).
 Definition oin (own : gset string) (x : option string) : bool := match x with None => true | Some y => ino own y end.
-Definition chk_prim (tbl : list summary) (own : gset string) (i : prim) : bool :=
+Definition chk_prim (tbl : list summary) (own ownv : gset string) (i : prim) : bool :=
   match i with
-  | PAllocGraph _ | PAllocDict _ | PFreshCircuit _ | PCopyGraph _ _ | PRelabelCopy _ _ | PCopyDict _ _ | PRead _ => true
-  | PGetGraph d c | PGetBbs d c => implb (ino own d) (ino own c)
-  | PMkCircuit d g b => implb (ino own d) (oin own g && oin own b)
-  | PFrom d srcs => implb (ino own d) (forallb (ino own) srcs)
+  | PAllocGraph d | PAllocDict d | PFreshCircuit d | PCopyGraph d _ | PRelabelCopy d _ | PCopyDict d _ => negb (ino ownv d)
+  | PRead _ | PAllocVal _ => true
+  | PForeign d => negb (ino own d) && negb (ino ownv d)
+  | PAlias d s => implb (ino own d) (ino own s) && implb (ino ownv d) (ino ownv s)
+  | PGetGraph d c | PGetBbs d c => implb (ino own d) (ino own c) && negb (ino ownv d)
+  | PMkCircuit d g b => implb (ino own d) (oin own g && oin own b) && negb (ino ownv d)
+  | PFrom d srcs => implb (ino own d) (forallb (ino own) srcs) && negb (ino ownv d)
   | PWrite x => ino own x
+  | PWriteVal x => ino ownv x
   | PCall d f args =>
       match find_summary tbl f with
       | Some s => bool_decide (length args = length (s_params s)) &&
                   match d, s_ret s with
                   | Some _, None => false
-                  | Some dv, Some rv => implb (ino own dv) (bool_decide (rv ∉ s_params s))
+                  | Some dv, Some rv => negb (ino ownv dv)
                   | None, _ => true end
       | None => false
       end
   end.
-Fixpoint chk_prog (tbl : list summary) (own : gset string) (p : prog) : bool :=
+Fixpoint chk_prog (tbl : list summary) (own ownv : gset string) (p : prog) : bool :=
   match p with
   | Skip => true
-  | Do i => chk_prim tbl own i
-  | Seq a b | Choice a b => chk_prog tbl own a && chk_prog tbl own b
-  | Loop a => chk_prog tbl own a
+  | Do i => chk_prim tbl own ownv i
+  | Seq a b | Choice a b => chk_prog tbl own ownv a && chk_prog tbl own ownv b
+  | Loop a => chk_prog tbl own ownv a
   end.
 
-(* inference of the shared (= not owned) locals: least set containing the parameters and closed under the
-   reference-propagating instructions.  Only `chk_prog` is trusted by the proofs; `infer` just proposes. *)
+(* inference of the two sets.  Only `chk_prog` is trusted by the proofs; `infer` just proposes. *)
 Fixpoint prims (p : prog) : list prim :=
   match p with Skip => [] | Do i => [i] | Seq a b | Choice a b => prims a ++ prims b | Loop a => prims a end.
 Definition ins (sh : gset string) (x : string) : bool := bool_decide (x ∈ sh).
+(* shared = may reach a pre-existing cell that is not a BlackBox *)
 Definition prop_prim (tbl : list summary) (sh : gset string) (i : prim) : gset string :=
   match i with
-  | PGetGraph d c | PGetBbs d c => if ins sh c then {[ d ]} ∪ sh else sh
+  | PGetGraph d c | PGetBbs d c | PAlias d c => if ins sh c then {[ d ]} ∪ sh else sh
   | PMkCircuit d g b => if existsb (ins sh) (option_list g ++ option_list b) then {[ d ]} ∪ sh else sh
   | PFrom d srcs => if existsb (ins sh) srcs then {[ d ]} ∪ sh else sh
+  | PForeign d => {[ d ]} ∪ sh
   | PCall (Some dv) f _ =>
       match find_summary tbl f with
       | Some s => match s_ret s with Some rv => if bool_decide (rv ∈ s_params s) then {[ dv ]} ∪ sh else sh | None => sh end
       | None => sh end
   | _ => sh
   end.
-Fixpoint iter_sh (n : nat) (tbl : list summary) (l : list prim) (sh : gset string) : gset string :=
-  match n with O => sh | S k => iter_sh k tbl l (foldl (prop_prim tbl) sh l) end.
+(* not-new = the object itself may have existed before the call *)
+Definition prop_old (old : gset string) (i : prim) : gset string :=
+  match i with
+  | PAllocVal _ | PRead _ | PWrite _ | PWriteVal _ | PCall None _ _ => old
+  | PAlias d s => if ins old s then {[ d ]} ∪ old else old
+  | PAllocGraph d | PAllocDict d | PFreshCircuit d | PCopyGraph d _ | PRelabelCopy d _ | PCopyDict d _
+  | PGetGraph d _ | PGetBbs d _ | PMkCircuit d _ _ | PFrom d _ | PForeign d | PCall (Some d) _ _ => {[ d ]} ∪ old
+  end.
+Fixpoint iter_sh (n : nat) (f : gset string → prim → gset string) (l : list prim) (sh : gset string) : gset string :=
+  match n with O => sh | S k => iter_sh k f l (foldl f sh l) end.
 Definition dst_of (i : prim) : list string :=
   match i with
   | PAllocGraph d | PAllocDict d | PFreshCircuit d | PCopyGraph d _ | PRelabelCopy d _ | PCopyDict d _
-  | PGetGraph d _ | PGetBbs d _ | PMkCircuit d _ _ | PFrom d _ => [d]
+  | PGetGraph d _ | PGetBbs d _ | PMkCircuit d _ _ | PFrom d _ | PAlias d _ | PAllocVal d | PForeign d => [d]
   | PCall (Some d) _ _ => [d]
   | _ => []
   end.
+Definition all_dsts (s : summary) : gset string := list_to_set (mjoin (dst_of <$> prims (s_body s))).
 Definition shared_of (tbl : list summary) (s : summary) : gset string :=
-  let l := prims (s_body s) in iter_sh (S (length l)) tbl l (list_to_set (s_params s)).
-Definition infer (tbl : list summary) (s : summary) : gset string :=
-  list_to_set (mjoin (dst_of <$> prims (s_body s))) ∖ shared_of tbl s.
+  let l := prims (s_body s) in iter_sh (S (length l)) (prop_prim tbl) l (list_to_set (s_params s)).
+Definition old_of (s : summary) : gset string :=
+  let l := prims (s_body s) in iter_sh (S (length l)) prop_old l (list_to_set (s_params s)).
+Definition infer (tbl : list summary) (s : summary) : gset string := all_dsts s ∖ shared_of tbl s.
+Definition inferv (s : summary) : gset string := all_dsts s ∖ old_of s.
 
-Definition safe_with (tbl : list summary) (own : gset string) (s : summary) : bool :=
-  forallb (λ x, negb (ino own x)) (s_params s) && chk_prog tbl own (s_body s) && oin own (s_ret s).
-Definition safe_summary (tbl : list summary) (s : summary) : bool := safe_with tbl (infer tbl s) s.
+Definition safe_with (tbl : list summary) (own ownv : gset string) (s : summary) : bool :=
+  forallb (λ x, negb (ino own x) && negb (ino ownv x)) (s_params s) && chk_prog tbl own ownv (s_body s) && oin own (s_ret s).
+Definition safe_summary (tbl : list summary) (s : summary) : bool := safe_with tbl (infer tbl s) (inferv s) s.
 Definition table_safe (tbl : list summary) : bool := forallb (safe_summary tbl) tbl.
 
 (* what the model predicts the runtime harness will observe for a function: (an argument may be mutated, the result may
-   share mutable state with an argument).  A callee that is itself unsafe taints its callers. *)
+   share mutable state other than BlackBox objects with an argument).  A callee that is itself unsafe taints its callers. *)
 Definition writes_shared (tbl : list summary) (s : summary) : bool :=
-  let sh := shared_of tbl s in
-  existsb (λ i, match i with PWrite x => ins sh x | _ => false end) (prims (s_body s)).
+  let sh := shared_of tbl s in let old := old_of s in
+  existsb (λ i, match i with PWrite x => ins sh x | PWriteVal x => ins old x | _ => false end) (prims (s_body s)).
 Definition result_shared (tbl : list summary) (s : summary) : bool :=
   match s_ret s with Some r => ins (shared_of tbl s) r | None => false end.
 Definition callees (s : summary) : list string :=
@@ -216,7 +254,7 @@ Fixpoint may_mutate (n : nat) (tbl : list summary) (f : string) : bool :=
   match find_summary tbl f with
   | None => true
   | Some s => writes_shared tbl s ||
-              match n with O => false | S k => existsb (may_mutate k tbl) (callees s) end
+              match n with O => false | S k => existsb (may_mutate k tbl) (remove_dups (callees s)) end
   end.
 Definition predict (tbl : list summary) (f : string) : bool * bool :=
   (may_mutate 6 tbl f, match find_summary tbl f with Some s => result_shared tbl s | None => true end).
@@ -224,7 +262,7 @@ Definition predict (tbl : list summary) (f : string) : bool * bool :=
 (* concrete edits used in the statements about later histories *)
 Definition set_graph (h : heap) (l : loc) (g' : circuit) : heap :=
   match h !! l with Some (CCirc _ lg _) => <[lg := CGraph g']> h | _ => h end.
-Definition set_dict (h : heap) (l : loc) (b' : gmap string bbdef) : heap :=
+Definition set_dict (h : heap) (l : loc) (b' : gmap string loc) : heap :=
   match h !! l with Some (CCirc _ _ lb) => <[lb := CDict b']> h | _ => h end.
 Definition set_name (h : heap) (l : loc) (n' : string) : heap :=
   match h !! l with Some (CCirc _ lg lb) => <[l := CCirc n' lg lb]> h | _ => h end.
